@@ -79,6 +79,13 @@ claim("C12", SIM + "; oracle: no success event (the lying peer never knows the s
       "trusted: refotr SMP engine (its honest path interoperates with otr3 in both roles, C10/C11); sampling of the (message, field, value) table, reported as probes",
       "DESIGN.md section 5 C12")
 
+claim("C13", "deterministic simulation with fault injection: complete enumeration of the failing Rand read index k x 4 failure modes over a scripted scenario, enumeration of truncation / I/O-error offsets of the key file through a simulated reader, seeded exploration of hostile Receive input in 10 conversation states; monitors: recovered panic, wall-clock watchdog with seed attribution, per-call heap allocation bound; recovery probe",
+      "(a) For a scripted scenario per version (AKE in both roles, traffic with rotation, SMP in both roles, extra key, End) the k-th read from Conversation.Rand fails for every k below the number of reads the scenario makes (28-30, measured and reported) in each of 4 modes; no call may panic and afterwards a fresh exchange and a message each way must work. "
+      "(b) ImportKeys reads the exported key file through a simulated reader truncated at / failing at every offset (stride 7 in quick, 1 in thorough) in 1-byte, 13-byte and whole chunks, plus hostile files (deep/unbalanced parentheses, huge numbers, garbage); it must return, never with a key that was not exported. "
+      "(c) A victim driven to one of 10 states receives PRNG-generated hostile input of 7 classes incl. authenticated-but-malicious payloads built by the reference peer; the public parsers get the same bytes. Fatal runtime errors (stack overflow, out of memory, hang) kill the worker and are attributed to the seed.",
+      "trusted: harness monitors; allocation bound 16 MiB + 64 x input per call; stack depth proportional to input is not flagged unless the process dies",
+      "DESIGN.md section 5 C13", category="fault_enumeration")
+
 _todo = "check not built yet in this session (see DESIGN.md section 12 build order)"
 for pid in [ "C11", "C12", "C13", "C14", "C15", "C16", "C18", "C19", "C20"]:
     NA[pid] = _todo
